@@ -1,0 +1,173 @@
+//! Verification seams. Compiled only with `--cfg jsonrpsee_verif`; never part of a normal build.
+//!
+//! This module contains no simulator logic. It only provides
+//!
+//! * a *task gate*: every task spawned through [`rt::spawn`] / [`rt::task::spawn_blocking`] is wrapped in
+//!   [`Gated`], which asks a per-thread [`TaskGate`] (installed by an external harness) for permission
+//!   before each poll of the wrapped future;
+//! * [`timer::Delay`], a drop-in for `futures_timer::Delay` that reads tokio's (pausable) clock;
+//! * a per-thread registry through which a harness can read the sizes of the async client's
+//!   bookkeeping tables.
+//!
+//! When no gate factory is installed the wrappers are transparent.
+
+use std::cell::RefCell;
+use std::future::Future;
+use std::pin::Pin;
+use std::task::{Context, Poll};
+
+/// Gate consulted around every poll of a spawned task.
+pub trait TaskGate: Send {
+	/// Return `false` to veto this poll; the gate must keep the waker and wake the task later.
+	fn before_poll(&mut self, cx: &mut Context<'_>) -> bool;
+	/// Called after the wrapped future was polled.
+	fn after_poll(&mut self, ready: bool);
+	/// Called if the wrapped future is dropped before completion.
+	fn dropped(&mut self) {}
+}
+
+/// Factory of gates: `(file, line)` of the spawn site.
+pub type MkGate = Box<dyn Fn(&'static str, u32) -> Box<dyn TaskGate>>;
+
+thread_local! {
+	static MK_GATE: RefCell<Option<MkGate>> = const { RefCell::new(None) };
+}
+
+/// Install (or remove) the gate factory of the current thread.
+pub fn set_gate_factory(f: Option<MkGate>) {
+	MK_GATE.with(|m| *m.borrow_mut() = f);
+}
+
+/// A spawned future together with its gate.
+pub struct Gated<F> {
+	gate: Option<Box<dyn TaskGate>>,
+	done: bool,
+	fut: Pin<Box<F>>,
+}
+
+impl<F: Future> Future for Gated<F> {
+	type Output = F::Output;
+
+	fn poll(mut self: Pin<&mut Self>, cx: &mut Context<'_>) -> Poll<F::Output> {
+		let this = &mut *self;
+		if let Some(g) = this.gate.as_mut() {
+			if !g.before_poll(cx) {
+				return Poll::Pending;
+			}
+		}
+		// A panic in the wrapped future must still reach `after_poll`, otherwise the gate would wait forever.
+		struct Guard<'a>(&'a mut Option<Box<dyn TaskGate>>, bool);
+		impl Drop for Guard<'_> {
+			fn drop(&mut self) {
+				if let Some(g) = self.0.as_mut() {
+					g.after_poll(self.1);
+				}
+			}
+		}
+		let mut guard = Guard(&mut this.gate, true);
+		let r = this.fut.as_mut().poll(cx);
+		guard.1 = r.is_ready();
+		drop(guard);
+		if r.is_ready() {
+			this.done = true;
+		}
+		r
+	}
+}
+
+impl<F> Drop for Gated<F> {
+	fn drop(&mut self) {
+		if !self.done {
+			if let Some(g) = self.gate.as_mut() {
+				g.dropped();
+			}
+		}
+	}
+}
+
+/// Wrap a future that is about to be spawned.
+pub fn wrap<F: Future>(file: &'static str, line: u32, fut: F) -> Gated<F> {
+	let gate = MK_GATE.with(|m| m.borrow().as_ref().map(|mk| mk(file, line)));
+	Gated { gate, done: false, fut: Box::pin(fut) }
+}
+
+/// Drop-in for the `tokio` paths used at spawn sites (`use …::verif::rt as tokio;`).
+pub mod rt {
+	pub use ::tokio::*;
+
+	/// See [`tokio::spawn`].
+	#[track_caller]
+	pub fn spawn<F>(fut: F) -> ::tokio::task::JoinHandle<F::Output>
+	where
+		F: std::future::Future + Send + 'static,
+		F::Output: Send + 'static,
+	{
+		let loc = std::panic::Location::caller();
+		::tokio::spawn(super::wrap(loc.file(), loc.line(), fut))
+	}
+
+	/// Shadow of `tokio::task`.
+	pub mod task {
+		pub use ::tokio::task::*;
+
+		/// Runs the closure inside an ordinary gated task instead of the blocking pool, so that the instant
+		/// at which it completes is decided by the harness and not by an OS thread.
+		#[track_caller]
+		pub fn spawn_blocking<F, R>(f: F) -> ::tokio::task::JoinHandle<R>
+		where
+			F: FnOnce() -> R + Send + 'static,
+			R: Send + 'static,
+		{
+			let loc = std::panic::Location::caller();
+			::tokio::spawn(crate::verif::wrap(loc.file(), loc.line(), async move { f() }))
+		}
+	}
+}
+
+/// tokio-clock replacement for `futures_timer`.
+pub mod timer {
+	use std::future::Future;
+	use std::pin::Pin;
+	use std::task::{Context, Poll};
+	use std::time::Duration;
+
+	/// Drop-in for `futures_timer::Delay`.
+	pub struct Delay(Pin<Box<::tokio::time::Sleep>>);
+
+	impl Delay {
+		/// See `futures_timer::Delay::new`.
+		pub fn new(dur: Duration) -> Self {
+			Self(Box::pin(::tokio::time::sleep(dur)))
+		}
+	}
+
+	impl Future for Delay {
+		type Output = ();
+
+		fn poll(mut self: Pin<&mut Self>, cx: &mut Context<'_>) -> Poll<()> {
+			self.0.as_mut().poll(cx)
+		}
+	}
+}
+
+type TableFn = Box<dyn Fn() -> Option<[usize; 4]>>;
+
+thread_local! {
+	static CLIENT_TABLES: RefCell<Vec<TableFn>> = const { RefCell::new(Vec::new()) };
+}
+
+/// Register an accessor for a client's internal table sizes
+/// (`requests`, `subscriptions`, `batches`, `notification_handlers`).
+pub fn register_client_tables(f: TableFn) {
+	CLIENT_TABLES.with(|t| t.borrow_mut().push(f));
+}
+
+/// Read all registered accessors; `None` means that client's background tasks are gone.
+pub fn client_tables() -> Vec<Option<[usize; 4]>> {
+	CLIENT_TABLES.with(|t| t.borrow().iter().map(|f| f()).collect())
+}
+
+/// Forget all registered accessors.
+pub fn clear_client_tables() {
+	CLIENT_TABLES.with(|t| t.borrow_mut().clear());
+}
